@@ -41,7 +41,8 @@ impl<'w> LineWrapper<'w> {
             if i != 0 && self.hard_width < self.line_width + word_width {
                 if 0 < i {
                     let last = i - 1;
-                    let trimmed = words[last].trim_end();
+                    // Only the inter-word spaces are replaced by the line break
+                    let trimmed = words[last].trim_end_matches(' ');
                     words[last] = trimmed;
                 }
 
